@@ -305,9 +305,13 @@ func main() {
 	r := vh.NewRun("C14", "exploration")
 	serverDifferential(r, r.Pick(0, 1))
 	generatedDifferential(r, r.Pick(12, 3000))
+	historyDifferential(r, r.Pick(30, 400), r.Pick(16, 30), r.Pick(12, 40))
 	clientDifferential(r)
 	generatedClients(r, r.Pick(6, 150))
-	r.Finish("generated part: 12 (quick) / 3000 (thorough) registries drawn from the PRNG (0-5 tools with 0-3 arguments of every JSON type, required or not, with and without descriptions and annotations, 11 handler outcomes incl. Go error, isError, nil content, image / audio / embedded resource / mixed content, empty text, unencodable; 0-3 prompts with arguments and 6 outcomes; 0-3 resources with text / blob / empty / failing / multi-content handlers; registry #0 is empty) registered identically on the seven configurations; one scripted sequence per registry (handshake, ping, the three lists, per tool 9 argument shapes, per prompt 5, per resource 2, unknown names, then registry changes while serving — unregister, register again differently, first late entries — each followed by lists and calls, then a second handshake on a new connection) replayed on each; step i compared across configurations. Server part: the C03 request generator restricted to the 8 methods every transport serves (valid requests, params and each parameter removed / retyped to every JSON type / extra members, string and integer ids), byte-identical requests sent to Streamable {JSON, SSE, stateless JSON, stateless SSE, sessions disabled}, legacy SSE and stdio servers with identical registrations; answers normalised (listed items sorted, error wording dropped, session ids blanked) and compared against the first kind. Client part: 19 operations (values, isError, nil content, handler errors, unencodable results, unknown names) through the Streamable client (JSON, SSE, stateless), the legacy SSE client and the stdio client; returned values compared as JSON, errors by class and code. The client part is repeated over 6 / 150 generated registries (lists, every tool with typed / nil / empty arguments, every prompt, every resource). Distinct = (part, request class / operation, answer class / client) that agreed.",
+	historyClients(r, r.Pick(10, 120), r.Pick(12, 25), r.Pick(6, 20))
+	r.Finish("history part: 30 (quick) / 400 (thorough) seeded histories of 16 / 30 registry changes out of 50 classes — first registrations; registering a tool / prompt / resource name again WITHOUT unregistering it (the same objects, an equal definition, another handler / description / schema / annotations / arguments / mime type / name / everything, twice in a row); UnregisterTools of known, unknown, already removed, empty, no and duplicate names, of all tools, followed by registering the same or a different entry; RegisterResources replacing RegisterResource for a URI and back; resource templates (first, same name again, covering a registered URI, a resource registered at a URI a template covers); empty names; 12 / 40 entries of each kind at once; everything registered again — applied through each server kind's OWN Register* / Unregister* methods (half of the operations through the kit helper, half on the concrete server object) to the seven configurations, in three layouts: an initial registry before the first handshake and the changes while serving, everything after the handshake, everything before it. Every handler says which registration (generation) it belongs to. After every change: the three lists, call / get / read of every touched name (two argument shapes), of up to 4 untouched or removed names, of unknown names, and the initialize answer of a fresh connection, compared across configurations (no prediction of what a re-registration means: replace or ignore are both accepted as long as all seven agree; the Go return values of UnregisterTools are not judged; an unanswered request is inconclusive). The client part replays 10 / 120 such histories in the stdio server child too and compares the five clients on every name ever mentioned. generated part: 12 (quick) / 3000 (thorough) registries drawn from the PRNG (0-5 tools with 0-3 arguments of every JSON type, required or not, with and without descriptions and annotations, 11 handler outcomes incl. Go error, isError, nil content, image / audio / embedded resource / mixed content, empty text, unencodable; 0-3 prompts with arguments and 6 outcomes; 0-3 resources with text / blob / empty / failing / multi-content handlers; registry #0 is empty) registered identically on the seven configurations; one scripted sequence per registry (handshake, ping, the three lists, per tool 9 argument shapes, per prompt 5, per resource 2, unknown names, then registry changes while serving — unregister, register again differently, first late entries — each followed by lists and calls, then a second handshake on a new connection) replayed on each; step i compared across configurations. Server part: the C03 request generator restricted to the 8 methods every transport serves (valid requests, params and each parameter removed / retyped to every JSON type / extra members, string and integer ids), byte-identical requests sent to Streamable {JSON, SSE, stateless JSON, stateless SSE, sessions disabled}, legacy SSE and stdio servers with identical registrations; answers normalised (listed items sorted, error wording dropped, session ids blanked) and compared against the first kind. Client part: 19 operations (values, isError, nil content, handler errors, unencodable results, unknown names) through the Streamable client (JSON, SSE, stateless), the legacy SSE client and the stdio client; returned values compared as JSON, errors by class and code. The client part is repeated over 6 / 150 generated registries (lists, every tool with typed / nil / empty arguments, every prompt, every resource). Distinct = (part, request class / operation, answer class / client) that agreed.",
 		[]string{"client part compares the clients against real servers with the same fixture (whose equal answers are established by the server part) instead of replaying one scripted answer",
-			"error message wording and the order of listed items are outside the statement"})
+			"error message wording and the order of listed items are outside the statement",
+			"history part: 'the same registrations' is read as the same sequence of public registry operations on each server kind; only JSON-RPC answers are compared (not the Go return value of UnregisterTools); resources/templates/list is not one of the eight methods and is not compared",
+			"history part: per history, configuration and entry family only the first divergence is reported (later ones are the same diverged registry seen again)"})
 }
